@@ -215,7 +215,7 @@ func TestC09Range(t *testing.T) {
 
 	rapid.Check(t, prop(r, func(t *rapid.T) {
 		ts := filterType(t, 4, true)
-		n := rapid.IntRange(0, 12).Draw(t, "n")
+		n := rapid.IntRange(0, gen.Upto(t, "n", 12)).Draw(t, "n")
 		if n < 4 && rapid.Bool().Draw(t, "more") {
 			n += 5
 		}
@@ -224,7 +224,7 @@ func TestC09Range(t *testing.T) {
 		seen := map[string]bool{}
 
 		for i := 0; i < n; i++ {
-			id := rapid.StringMatching(`[a-e]{1,2}`).Draw(t, "id")
+			id := rapid.StringMatching(`[a-f]{1,2}`).Draw(t, "id")
 			if seen[id] {
 				continue
 			}
